@@ -119,6 +119,10 @@ var secrecyBodies = []struct {
 	{false, "dynamic \"blk\" {\n  for_each = [1]\n  labels = [s, s]\n  content {}\n}\n"},
 	{false, "dynamic \"blk\" {\n  for_each = s\n  content {}\n}\n"},
 	{false, "blk {\n  x = [s]\n}\n"},
+	// errors raised in the content of a block generated from a MARKED collection (so = marked list of {a = secret})
+	{false, "dynamic \"blk\" {\n  for_each = so\n  content {\n    x = blk.value.a + 1\n  }\n}\n"},
+	{false, "dynamic \"blk\" {\n  for_each = so\n  content {\n    x = upper(blk.value)\n  }\n}\n"},
+	{false, "dynamic \"blk\" {\n  for_each = {(s) = 1}\n  content {\n    x = blk.key.nope\n  }\n}\n"},
 }
 
 // H_SecrecyBody (C19, bodies): JSON expressions, hcldec attribute conversion errors and
@@ -129,6 +133,7 @@ func H_SecrecyBody() {
 	secret := secretString()
 	vf.Observe("body", bi)
 	ctx := scope(cty.StringVal(secret).Mark("sensitive"))
+	ctx.Variables["so"] = cty.ListVal([]cty.Value{cty.ObjectVal(map[string]cty.Value{"a": cty.StringVal(secret)})}).Mark("sensitive")
 	var body hcl.Body
 	if sb.json {
 		f, diags := hcljson.Parse([]byte(sb.src), "b.json")
